@@ -27,7 +27,7 @@ type Profile struct {
 	CloseOps   bool
 	IOOps      bool
 	Names      []string
-	TimeHeavy  bool // queries aim at the time field t
+	Aim        string // queries, sorts and documents favour this field
 	AltIds     bool // ids in every textual form uuid.FromString accepts, not only the canonical one
 	BigInts    bool
 	IdxPool    []string // fields CreateIndex chooses from
@@ -77,7 +77,9 @@ var badIds = []V{AStr("not-a-uuid"), AStr("1234"), AStr("zzzzzzzz-zzzz-zzzz-zzzz
 	AStr("{00000000-0000-4000-8000-000000000001"), AStr("urn:uuix:00000000-0000-4000-8000-000000000001"), AStr("00000000-0000-4000-8000-00000000000g"),
 	AStr("00000000+0000-4000-8000-000000000001"), AStr("0000000000004000800000000000001")}
 
-var strPool = []string{"", "a", "ab", "abc", "b", "ba", "\x00", "a\x00", "a\x00b", "\xff", "a\xff", "\xff\x00", "é", "hello world", "Hello", "z"}
+var strPool = []string{"", "a", "ab", "abc", "b", "ba", "\x00", "a\x00", "a\x00b", "\xff", "a\xff", "\xff\x00", "é", "hello world", "Hello", "z",
+	// the byte pairs an escaping, self-delimiting key encoding has to get right
+	"\xff\x01", "a\xff\x01b", "\x00\x01", "\x00\xff\x01", "a\x00\x01"}
 
 type Gen struct {
 	r       *rand.Rand
@@ -255,7 +257,7 @@ func (g *Gen) doc(id V) V {
 	}
 	for _, f := range fieldPool {
 		p := 0.55
-		if f == "x" || (f == "t" && g.P.TimeHeavy) {
+		if f == "x" || f == g.P.Aim {
 			p = 0.85
 		}
 		if g.chance(p) {
@@ -364,8 +366,8 @@ func canonicalFor(u *Universe, v V, kind string) V {
 // leafField prefers the fields that are indexed in the collection the query is aimed at, so that
 // the planner's index paths are exercised.
 func (g *Gen) leafField() string {
-	if g.P.TimeHeavy && g.chance(0.7) {
-		return "t"
+	if g.P.Aim != "" && g.chance(0.7) {
+		return g.P.Aim
 	}
 	if len(g.focus) > 0 && g.chance(0.65) {
 		return g.pick(g.focus)
@@ -918,6 +920,29 @@ func (g *Gen) indexCatalogSweep() []E {
 			delete(g.idx[c], f)
 		}
 		evs = append(evs, E{"op": "ListIndexes", "c": c})
+	}
+	// one bulk update that changes, document by document, a different subset of the indexed fields
+	if len(fields) >= 2 {
+		v1, v2 := g.smallNum(), g.smallNum()
+		var docs []interface{}
+		free := g.freeIds(c)
+		for i := 0; i < 3 && i < len(free); i++ {
+			d := AObj("_id", AStr(free[i]), fields[0], v1, fields[1], v2)
+			switch i {
+			case 0:
+				d = ObjSet(d, fields[1], g.smallNum()) // only the second field will change
+			case 1:
+				d = ObjSet(d, fields[0], g.smallNum()) // only the first
+			}
+			docs = append(docs, d)
+		}
+		if len(docs) > 0 && !strings.Contains(fields[0]+fields[1], ".") && fields[0] != "n" && fields[1] != "n" {
+			evs = append(evs, E{"op": "Insert", "c": c, "docs": docs})
+			g.noteInsert(c, free[:len(docs)]...)
+			g.stamp++
+			evs = append(evs, E{"op": "Update", "c": c, "q": []interface{}{}, "upd": []interface{}{"setall", []interface{}{
+				[]interface{}{B("u"), AStr(fmt.Sprintf("op%d", g.stamp))}, []interface{}{B(fields[0]), v1}, []interface{}{B(fields[1]), v2}}}})
+		}
 	}
 	g.setFocus(c)
 	// every surviving index visited backwards and forwards, without bounds
